@@ -19,9 +19,8 @@ PLAN = {
                             'pointer checks on real memory for two chunk geometries (bounded).'),
     'C02': dict(v=V, level='model_checking',
                 k_quick=['k_shrink', 'k_grow', 'k_fill_copy_clone', 'k_fill_with_order'], k_thorough=['k_shrink_odd', 'k_shrink_m8', 'k_shrink_align', 'k_shrink_notlast', 'k_grow_m8', 'k_grow_align', 'k_grow_notlast', 'k_glue_grow_zeroed', 'k_fill_str', 'k_rewind_keeps_inner_allocs'],
-                technique='Verus proves the address ranges of every copy (source/destination/non-overlap/length); byte contents are checked by bounded Kani harnesses',
-                explanation='Placement half is proof (preconditions of copy_nonoverlapping/copy shims in shrink/grow, frame clauses); the byte-level half (read-back, preserved '
-                            'prefix, untouched neighbour, closure call order) is BOUNDED model checking: blocks of at most 8 bytes, slices of at most 3 elements, one 448-byte chunk.'),
+                technique='Verus: address ranges of every copy and every element store of the generic slice/value workers, initialiser call order, frame; byte contents by bounded Kani harnesses',
+                explanation='PARTIAL at byte level. Proof (unbounded, all T via symbolic size/alignment, all lengths): the seven slice workers alloc_slice_{fill_with,try_fill_with,copy,clone} and their try_ twins are verified against a ghost log: the initialiser is called exactly once per index in index order (also when it re-enters the arena and allocates), element k is stored at slot k of the reserved block with the value of call k, every store lies inside the block reserved for the slice and inside memory the arena holds, aligned for T; copies in shrink/grow have verified source/destination ranges (non-overlap, length, inside own block); placement obligations (C01) are counted here too because an overlapping block is a block whose bytes another owner changes. Byte-level read-back, preserved prefixes and untouched neighbours are BOUNDED Kani harnesses (blocks of at most 8 bytes, slices of at most 3 elements, one 448-byte chunk).'),
     'C03': dict(v=V, scans=['c03'], level='proof',
                 k_quick=['k_new_chunk', 'k_list_1'], k_thorough=['k_new_chunk_64', 'k_list_0', 'k_list_2', 'k_list_3'],
                 technique='Verus: ledger ghost state of the global allocator; dealloc shim requires the recorded (ptr, layout); unbounded chunk-list induction (ghost depth)',
@@ -40,67 +39,49 @@ PLAN = {
                             'ledger == old ledger minus the older chunks, limit and footer unchanged, accounting reset; the invariant holds again so the contract applies to any '
                             'later history. fast.complete (Some <=> fits) gives "hands out the full capacity again without the global allocator".'),
     'C07': dict(v=V, level='proof', k_quick=['k_limit_remaining'], k_thorough=[],
-                technique='Verus contracts on the limit arithmetic and on fast-path completeness; the iterator pipeline of the slow path is a bounded Kani stand-in',
-                explanation='allocation_limit_remaining / chunk_fits_under_limit are verified against the property (headroom is Some while a limit is set, zero when over); the '
-                            'fast path is complete and independent of the limit; new_chunk accounts exactly the usable bytes. That the slow path reaches new_chunk only for admitted '
-                            'candidates is checked by Kani on the real function (bounded: one request, concrete request sizes, symbolic limit, nondeterministic refusals).'),
+                technique='Verus contracts on the limit arithmetic, the slow path (unbounded loop, limit never exceeded) and fast-path completeness; Kani loop-free full-domain harness for the headroom arithmetic',
+                explanation='allocation_limit_remaining / chunk_fits_under_limit are verified against the property (headroom is Some while a limit is set, zero when over); the fast path is complete and independent of the limit; the real alloc_layout_slow is verified (iterator pipeline desugared, R15) to reach new_chunk only for candidates admitted by the limit filter, so the bytes held never exceed the limit; new_chunk accounts exactly the usable bytes. k_limit_remaining is a loop-free harness over the full input domain (complete, not bounded).'),
     'C08': dict(v=V, level='proof', k_quick=['k_list_1'], k_thorough=['k_list_0', 'k_list_2', 'k_list_3', 'k_new_chunk'],
                 technique='Verus: accounting clause in the list invariant, induction lemma, contracts of the two getters',
                 explanation='list_wf carries allocated_bytes(a) == allocated_bytes(prev) + usable(a); lemma_accounting proves allocated_bytes == total bytes held - n*FOOTER_SIZE by '
                             'induction on a list of any length; new_chunk and reset establish the clause, no other function writes the field (frame clauses); '
                             'allocated_bytes_including_metadata is verified to return total_held (Iterator::count is an assumed shim).'),
     'C09': dict(v=V, level='proof', k_quick=[], k_thorough=['k_ncmd', 'k_ncmd_m16', 'k_round_up_to'],
-                technique='Verus: absence of overflow/panic obligations on every try_ path, Err => frame; slow-path loop bounded by Kani',
-                explanation='Every arithmetic operation, debug_assert!, unwrap and panic shim on the try_ paths is a discharged obligation for all inputs; Err/None postconditions '
-                            'state that nothing changed; infallible wrappers return only what the fallible twin returns in Ok. Termination of the halving loop and allocator-failure '
-                            'injection are checked by Kani (bounded, see finding F8 for the zero-size corner).'),
+                technique='Verus: absence of overflow/panic obligations on every try_ path, Err => frame, termination of the slow-path loop (decreases); try_ slice workers under contract',
+                explanation='Every arithmetic operation, debug_assert!, unwrap and panic shim on the try_ paths is a discharged obligation for all inputs; Err/None postconditions state that nothing changed (arena, ledger, and for the slice workers: no initialiser call, no store); infallible wrappers return only what the fallible twin returns in Ok; the halving loop of the slow path terminates (decreases; finding F8). Allocator refusal is part of the assumed alloc contract (may return null at any call).'),
     'C10': dict(v=V, level='proof', k_quick=['k_list_1'], k_thorough=['k_list_2', 'k_list_3', 'k_try_fill_new_chunk'],
-                technique='Verus contracts of ChunkRawIter::next / as_raw_parts over the unbounded list + no-padding clause of the fast path',
-                explanation='next() is verified to yield [finger, footer) of the current chunk and to step to prev, stopping exactly at the sentinel, for a list of any length; '
-                            'fast.no_padding shows uniform allocations are adjacent. The safe iterator is a thin wrapper over the raw one (not extracted; Kani compares them, bounded).'),
+                technique='Verus contracts of ChunkRawIter::next, ChunkIter::next (the safe wrapper), as_raw_parts over the unbounded list + no-padding clause of the fast path',
+                explanation='next() of the raw iterator is verified to yield [finger, footer) of the current chunk and to step to prev, stopping exactly at the sentinel, for a list of any length; the safe ChunkIter::next is extracted too and verified to yield exactly what the raw iterator yields, each slice inside one held block; fast.no_padding shows uniform allocations are adjacent; the release path of a failed slice fill moves only the finger, and only over the failed slice. Kani compares both iterators on 0-3 chunks (bounded).'),
     'C11': dict(v=V, level='proof', k_quick=['k_rewind', 'k_try_fill_releases', 'k_rewind_keeps_inner_allocs', 'k_try_fill_new_chunk', 'k_rewind_new_chunk'], k_thorough=['k_rewind_m16'],
-                technique='Verus on the mechanically extracted Err arms of alloc_try_with/try_alloc_try_with + dealloc contract; ownership of the error value by Kani',
-                explanation='The rewind regions are verified against rewind_post (not last => nothing changes; same chunk => finger restored; new chunk => whole chunk free again). '
-                            'Exactly-once delivery of E and "initialiser not run when the reservation fails" are checked by Kani with a drop-counting error type (bounded).'),
+                technique='Verus on the mechanically extracted Err arms of alloc_try_with/try_alloc_try_with, the whole alloc_slice_try_fill_with / try_alloc_slice_* workers + dealloc contract; ownership of the error value by Kani',
+                explanation='The rewind regions are verified against rewind_post (not last => nothing changes; same chunk => finger restored; new chunk => whole chunk free again). alloc_slice_try_fill_with is verified as a whole: the initialiser is not run when the reservation fails, the error handed back is the one the failing call produced and no call follows it, the failed slice is released exactly when it still is the most recent allocation and blocks the initialiser allocated and kept stay reserved. Exactly-once delivery of E as a VALUE (not dropped, not duplicated) is checked by Kani with a drop-counting error type (bounded).'),
     'C12': dict(v=V, level='proof', k_quick=['k_shrink', 'k_grow', 'k_glue_alloc_shrink_dealloc', 'k_glue_grow_zeroed'], k_thorough=['k_shrink_odd', 'k_shrink_m8', 'k_shrink_align', 'k_shrink_notlast', 'k_grow_m8', 'k_grow_align', 'k_grow_notlast', 'k_dealloc'],
                 technique='Verus contracts of dealloc/shrink/grow for arbitrary old/new layouts; trait glue and contents by Kani',
                 explanation='Result fits the new layout (size, both alignments), Err => nothing changed, in-place moves stay inside the old block and never overlap source and '
                             'destination, fresh blocks are disjoint from the old one; deallocate of a non-last block is a no-op. The Allocator glue (slice length, zeroed tail) and '
                             'byte preservation are bounded Kani harnesses.'),
-    'C13': dict(v=['rawvec', 'dedup', 'vecops'], level='model_checking',
+    'C13': dict(v=['rawvec', 'dedup', 'vecops'], level='proof',
                 k_quick=['k_vec_insert_remove', 'k_vec_swap_remove_truncate', 'k_vec_drain', 'k_vec_append_split_off', 'k_vec_push_pop_grow', 'k_vec_shrink_moves', 'k_vec_insert_oob', 'k_drop_dedup'],
                 k_thorough=['k_vec_insert_remove_ends', 'k_vec_drain_wide', 'k_vec_reserve_shrink_small', 'k_vec_drain_filter', 'k_vec_zst', 'k_ovf_vec', 'k_vec_remove_oob',
                             'k_vec_swap_remove_oob', 'k_vec_split_off_oob', 'k_vec_drain_oob', 'k_vec_drain_inverted', 'k_drop_dedup', 'k_box_from_vec_then_alloc'],
-                technique='bounded model checking (Kani) of the real Vec operations against a sequence model; Verus on the RawVec growth arithmetic',
-                explanation='BOUNDED. Each harness runs one real Vec operation on a vector of length <= 3 (concrete shape, SYMBOLIC element values) next to other collections in the '
-                            'same arena and compares with a sequence model of std\'s documented behaviour; out-of-range arguments are should_panic twins. Symbolic lengths/indices '
-                            'were measured to cost CBMC > 30 GB, so index arguments are selected concrete values, not all values. The growth path (cap, fallible_reserve_internal, reserve_internal(_or_error), '
-                            'amortized_new_size, current_layout, dealloc_buffer: capacity promise, doubling, overflow refused, Err leaves vector AND buffer untouched) and the '
-                            'swap-only dedup loop are proved unbounded by Verus.'),
-    'C14': dict(v=['strbounds', 'strretain', 'strops'], level='model_checking',
+                technique='Verus: 40 real Vec/Drain/IntoIter/RawVec functions against mathematical sequence specifications over a ghost heap of token buffers (unbounded); bounded Kani harnesses for value-level behaviour of the rest',
+                explanation="PARTIAL. Proof (all lengths, capacities, indices, element types incl. zero-sized): push, pop, insert, remove, swap_remove, truncate, clear, append(_elements), split_off, extend, extend_from_slice(_copy), reserve, set_len, with_capacity_in, drain + Drain::{next,next_back,drop,fill,move_tail}, into_iter + IntoIter::{next,next_back,drop}, Vec::drop are verified against std's documented sequence semantics (view' == view.insert(i, x) ...), with every raw-pointer primitive carrying std's safety conditions (inside the buffer, non-overlap, no use of a pointer across a growth), neighbours untouched (frame), capacity never below length, and panics ONLY where std panics (ghost allow_panic discipline; finding F9). RawVec growth arithmetic (capacity promise, doubling, overflow refused, Err leaves vector and buffer untouched) and the dedup compaction loop are proved too. Vec::reserve as called from these functions is an assumed shim whose clauses are the verified postconditions of the rawvec unit and of Bump::grow. NOT proved: retain/dedup/splice as whole value-level operations, comparison/formatting impls, from_iter_in: BOUNDED Kani harnesses (vectors of length <= 3, concrete shapes, symbolic element values) against a sequence model."),
+    'C14': dict(v=['strbounds', 'strretain', 'strops'], level='proof',
                 k_quick=['k_lossy_chunk_3', 'k_width_table', 'k_str_insert_mid', 'k_str_truncate_split', 'k_str_drain', 'k_str_insert_non_boundary'],
                 k_thorough=['k_lossy_chunk_2', 'k_lossy_chunk_4', 'k_str_insert_ends', 'k_str_remove', 'k_str_lossy_truncated', 'k_str_truncate_non_boundary',
                             'k_str_split_off_non_boundary', 'k_str_remove_past_end'],
-                technique='Kani: forked lossy UTF-8 decoder against the Unicode definition on ALL byte strings of length <= 4 (symbolic), width table complete; String operations '
-                          'on a fixed mixed-width text; Verus: char-boundary contract of replace_range for every range form',
-                explanation='BOUNDED for the operations (the text "a\u00e9\u20ac", selected boundary and non-boundary indices, exact byte comparison with the expected text); COMPLETE for the first '
-                            'chunk of the lossy decoder on all inputs of length <= 4 and for the 256-entry width table (loop-free / fully symbolic); replace_range\'s boundary '
-                            'assertions are proved by Verus to put both ends of the removed byte range on char boundaries for Included/Excluded/Unbounded ends. from_utf16_in, '
-                            'retain, pop and replace_range as whole operations exceeded the CBMC budget and are not decided.'),
-    'C15': dict(v=['drainfilter', 'intoiter', 'rawvec', 'dedup', 'vecops', 'boxops'], level='model_checking',
+                technique='Verus: String byte surgery (push, pop, truncate, remove, insert, insert_str, split_off, drain, from_str_in ...) on top of the verified Vec<u8> functions, UTF-8 facts as listed trusted axioms; Kani: forked lossy decoder on all inputs of length <= 4',
+                explanation='PARTIAL. Proof (all texts, indices, chars): 15 real String functions are verified to compute exactly the byte sequence std documents, to perform their char-boundary checks so that std\'s panics are reproduced (and no others), to stay inside the buffer and to leave valid UTF-8 behind; the Vec<u8> operations they call are the real Vec functions re-verified in the same unit. "valid UTF-8", "char boundary" and "encoding of c" are uninterpreted; the trusted facts relating them (concatenation/splitting at boundaries preserves validity; std\'s chars()/is_char_boundary/encode_utf8 behave as documented) are listed as axioms in the evidence. replace_range\'s boundary assertions and retain (incl. its panic guard) are proved in their own units. BOUNDED / complete-for-small-inputs (Kani): the forked lossy decoder\'s first chunk against the Unicode definition on ALL byte strings of length <= 4, the 256-entry width table (complete), single operations on the text "aé€". Not decided: from_utf16_in, from_utf8_lossy_in as a whole loop.'),
+    'C15': dict(v=['drainfilter', 'intoiter', 'rawvec', 'dedup', 'vecops', 'boxops'], level='proof',
                 k_quick=['k_drop_vec_ops', 'k_drop_iters', 'k_drop_forgotten_iterators', 'k_drop_no_destructors', 'k_drop_dedup', 'k_drop_zst'],
                 k_thorough=['k_drop_dedup_retain', 'k_box_drop_once', 'k_box_slices_arrays'],
-                technique='bounded model checking (Kani) with a per-element drop ledger on the real Vec/Box code',
-                explanation='BOUNDED: vectors of <= 3 elements whose Drop bumps a per-id counter; pop/remove/swap_remove/truncate/drain/into_iter (partially consumed)/dedup/retain/'
-                            'forgotten Drain and DrainFilter/zero-sized elements/into_bump_slice/arena reset. Non-panicking paths only. IntoIter over zero-sized elements reaches a '
-                            'construct Kani cannot model (arithmetic on dangling pointers) and is not exercised.'),
-    'C17': dict(v=['boxops'], level='model_checking',
+                technique='Verus: destructor-run ledger (multiset) in the contracts of the real Vec/Drain/IntoIter/DrainFilter/Box functions (unbounded); bounded Kani harnesses with a per-element drop counter',
+                explanation='PARTIAL (non-panicking paths). Proof: truncate/clear/Vec::drop/Drain::drop/IntoIter::drop run the destructor of exactly the elements they let go of, each once (ghost multiset log), moved-out elements (pop, remove, swap_remove, drain/into_iter items) leave the view so that no owner remains, DrainFilter exposes exactly the live slots, the dedup loop only swaps; Box: from_raw/into_raw/leak/into_inner/drop and the array<->slice, downcast and Vec->boxed-slice conversions keep exactly one owner per cell and never run or skip a destructor. BOUNDED (Kani): vectors of <= 3 elements whose Drop bumps a per-id counter, forgotten iterators, into_bump_slice/arena reset never running destructors.'),
+    'C17': dict(v=['boxops'], level='proof',
                 k_quick=['k_box_roundtrips', 'k_box_drop_once', 'k_box_slices_arrays', 'k_box_from_vec_then_alloc', 'k_box_zst_slice_to_array'],
                 k_thorough=['k_box_downcast', 'k_vec_shrink_moves'],
-                technique='bounded model checking (Kani) of the real Box code for fixed type instances with symbolic values',
-                explanation='BOUNDED in type instances (u32, [u32;3], [u8;3], (), dyn Any, a drop-counting type): value round trips through into_inner/into_raw/from_raw/leak/pin_in, '
-                            'array<->slice conversions incl. refused lengths, Vec->boxed slice followed by further arena allocations, downcast hit and miss, drop exactly once, and '
-                            'the bump finger unchanged by Box drop.'),
+                technique='Verus: Box ownership transfer (cells / owners / destructor runs / moves-out) and trait forwarding on the real boxed.rs functions; bounded Kani harnesses for value round trips of fixed type instances',
+                explanation="PARTIAL. Proof: from_raw, into_raw, leak, into_inner, new_in, pin_in, Drop, Pin::from, downcast (both flavours), [T;N]<->[T] conversions, Vec::into_boxed_slice, Deref/DerefMut are verified to name the same cell and to leave owners / destructor runs / moves-out exactly as std's Box documents (one owner before and after, drop runs the destructor once and releases nothing); the comparison, Hasher and ExactSizeIterator impls are verified to forward to the SAME method of the inner value with the same arguments, exactly once. BOUNDED in type instances (Kani): value round trips through into_inner/into_raw/from_raw/leak/pin_in for u32, [u32;3], [u8;3], (), dyn Any, a drop-counting type; iterate/poll/format impls are not extracted."),
     'C16': dict(v=['vecpanic', 'strretain', 'drainfilter', 'dedup', 'vecops'], level='proof', k_quick=['k_cb_retain_len_zero'], k_thorough=['k_drop_forgotten_iterators'],
                 technique='Verus callback-point contracts on the real truncate/extend_with bodies (what an unwind would restore); partial',
                 explanation='PARTIAL. Neither Verus nor Kani can execute an unwind. For the operations that protect themselves with a scope guard (Vec::truncate, '
